@@ -614,6 +614,14 @@ def gen_hal(rng, quick):
                 n, cols, sa, sb, sr = shape()
                 add(op, f"cols={cols} col={rng.below(cols)} sa={sa} sb={sb} sr={sr} rows={rng.range(1, 4)} cout=1 co=0 b=30 va=norm vb=norm ma=48 mb=40",
                     "dft_wide", "ntt", n, (n,))
+    # ---- index kernels (automorphism gathers, rotations) at EVERY large ring degree up to the maximum, one exponent per class
+    # mod 8 and both signs: the AVX kernels derive p^-1 mod 2N and block schedules from N, so a slip may show only at one degree
+    for n in ([128, 512, 2048, 8192, 16384, 32768, 65536] if quick else [2 ** j for j in range(7, 17)]):
+        for p in [-1, 3, 5, 7, 2 * n - 1, 2 * n - 3, -5, n + 1, 3 * n + 3 if (3 * n + 3) % 2 else 3 * n + 1][: (9 if not quick else 6)] + [rng.range(0, 2 * n - 1) | 1]:
+            op = rng.choice(["automorphism", "automorphism_assign", "big_automorphism", "big_automorphism_assign"])
+            add(op, f"cols=1 col=0 sa=1 sb=1 sr=1 b=12 k=0 p={p} va=full vb=full vr=full ma=64 mb=64", "index_big_ring", "all", n, ("idxbig", n, p % 8, p < 0))
+        for k in (1, -1, n, n - 1, 2 * n - 1):
+            add(rng.choice(["rotate", "rotate_assign"]), f"cols=1 col=0 sa=1 sb=1 sr=1 b=12 k=0 p={k} va=full vb=full vr=full ma=64 mb=64", "index_big_ring", "all", n, ("rotbig", n, k % n == 0))
     # ---- large rings, worst-case value classes (all digits at the extremes, aligned signs), a-priori bound
     # n * terms * 2^(ma-1) * 2^(mb-1) = 2^48 / 2^49 (demanded: all four equal) and the edge up to 2^50 (recorded: where FFT64 rounds wrongly)
     import math
